@@ -1334,11 +1334,11 @@ class AnyPayloadDecoder(AbstractSimplePayloadDecoder):
                 LOG('decoding as untagged ANY, header substrate %s' % debug.hexdump(chunk))
 
         # Any components do not inherit initial tag
-        asn1Spec = self.protoComponent
+        componentSpec = self.protoComponent
 
         if substrateFun and substrateFun is not self.substrateCollector:
             asn1Object = self._createComponent(
-                asn1Spec, tagSet, noValue, **options)
+                componentSpec, tagSet, noValue, **options)
 
             for chunk in substrateFun(
                     asn1Object, chunk + substrate, length + len(chunk), options):
@@ -1349,13 +1349,16 @@ class AnyPayloadDecoder(AbstractSimplePayloadDecoder):
         if LOG:
             LOG('assembling constructed serialization')
 
+        # we may be a fragment of an outer ANY being assembled
+        isFragment = substrateFun is not None
+
         # All inner fragments are of the same type, treat them as octet string
         substrateFun = self.substrateCollector
 
         while True:  # loop over fragments
 
             for component in decodeFun(
-                    substrate, asn1Spec, substrateFun=substrateFun,
+                    substrate, componentSpec, substrateFun=substrateFun,
                     allowEoo=True, **options):
 
                 if isinstance(component, SubstrateUnderrunError):
@@ -1369,10 +1372,18 @@ class AnyPayloadDecoder(AbstractSimplePayloadDecoder):
 
             chunk += component
 
-        if substrateFun:
-            yield chunk  # TODO: Weird
+        if not isTagged:
+            # untagged ANY holds the whole serialization, including
+            # its end-of-octets marker
+            chunk += EOO_SENTINEL
+
+        if isFragment:
+            yield chunk
 
         else:
+            if asn1Spec.__class__ is tagmap.TagMap:
+                asn1Spec = None
+
             yield self._createComponent(asn1Spec, tagSet, chunk, **options)
 
 
